@@ -77,8 +77,9 @@ def decomposition_problems(g, node_ids, links, starts, oracle="cycles"):
         if oracle == "cycles":
             blocks = gl.blocks_by_cycles(node_ids, pairs)
         else:
-            blocks = gl.blocks_lowpoint(node_ids, pairs)[0]
-        aps = gl.articulation_by_removal(node_ids, pairs)
+            blocks, aps_lp = gl.blocks_lowpoint(node_ids, pairs)
+        # removal + connectivity is quadratic: beyond 150 nodes the (cross-checked) lowpoint code supplies the articulation points
+        aps = gl.articulation_by_removal(node_ids, pairs) if len(node_ids) <= 150 else aps_lp
         for root in [None] + list(starts):
             try:
                 comps, art = g.biccs() if root is None else g.biccs([root])
